@@ -94,7 +94,7 @@ func zzC05Keys(rr *zzRealRing, home int) []*zzC05Key {
 			}
 			rt.Assume(zzInArc(rr.ring.ids[(k.owner+n-1)%n], k.hash, rr.ring.ids[k.owner])) // INV in the pre-state
 		}
-		profile := i % rt.Bound("FIXED")
+		profile := (rt.Bound("PBASE") + i) % rt.Bound("FIXED")
 		if rt.Bound("PROFILES") > 0 {
 			profile = rt.Choose("profile", rt.Bound("PROFILES"))
 		}
@@ -104,28 +104,42 @@ func zzC05Keys(rr *zzRealRing, home int) []*zzC05Key {
 }
 
 type zzC05Store struct {
-	id uint64
-	kv *memory.MemoryKV
+	idx int // member index in the pre-state ring, -1 for the joiner
+	kv  *memory.MemoryKV
 }
 
-// zzC05CheckPlacement: every key is on the store whose id is holder(key) and nowhere else; no store lists anything else.
-func zzC05CheckPlacement(stores []zzC05Store, keys []*zzC05Key, holder func(k *zzC05Key) uint64) {
+// zzC05CheckPlacement: every key is on the store for which holder(key, store index) is true and nowhere else; no
+// store lists anything else. (Members have pairwise distinct ids, so "the node with index i" and "the node with id
+// ids[i]" are the same thing.) The counting is written with booleans: present = at least one entry equals the key,
+// twice = at least two do.
+func zzC05CheckPlacement(stores []zzC05Store, keys []*zzC05Key, holder func(k *zzC05Key, idx int) bool) {
 	ctx := context.Background()
 	for _, st := range stores {
 		list, err := st.kv.RangeKeys(ctx, 0, 0)
 		rt.Assert(err == nil, "store-readable")
-		total := 0
-		present, exclusive := true, true
+		there, exclusive := true, true
 		for _, k := range keys {
-			want := rt.IteInt(rt.And(k.holds(), holder(k) == st.id), 1, 0)
-			c := zzCountKey(list, k.key)
-			present = rt.And(present, c >= want)
-			exclusive = rt.And(exclusive, c <= want)
-			total += want
+			want := rt.And(k.holds(), holder(k, st.idx))
+			present, twice := false, false
+			for _, e := range list {
+				eq := rt.EqBytes(e, k.key)
+				twice = rt.Or(twice, rt.And(present, eq))
+				present = rt.Or(present, eq)
+			}
+			there = rt.And(there, rt.Implies(want, present))
+			exclusive = rt.And(exclusive, !twice, rt.Implies(!want, !present))
 		}
-		rt.Assert(present, "key-is-on-its-responsible-node")
+		known := true
+		for _, e := range list {
+			one := false
+			for _, k := range keys {
+				one = rt.Or(one, rt.EqBytes(e, k.key))
+			}
+			known = rt.And(known, one)
+		}
+		rt.Assert(there, "key-is-on-its-responsible-node")
 		rt.Assert(exclusive, "key-is-only-on-its-responsible-node")
-		rt.Assert(len(list) == total, "node-holds-nothing-but-the-keys-of-its-arc")
+		rt.Assert(known, "node-holds-nothing-but-the-keys-of-its-arc")
 	}
 	if rt.Bound("CONTENT") == 0 {
 		return
@@ -141,7 +155,7 @@ func zzC05CheckPlacement(stores []zzC05Store, keys []*zzC05Key, holder func(k *z
 				continue
 			}
 			v := vals[0]
-			here := holder(k) == st.id
+			here := holder(k, st.idx)
 			okHere := rt.And(rt.EqBytes(v.SimpleValue, k.value), len(v.PrefixChildren) == len(k.children), v.LeaseToken == k.token)
 			for _, c := range k.children {
 				okHere = rt.And(okHere, zzCountKey(v.PrefixChildren, c) == 1)
@@ -187,9 +201,9 @@ func ZZ_C05_Join() {
 
 	pre, succs, err := rr.nodes[0].RequestToJoin(joiner)
 
-	stores := []zzC05Store{{jid, jkv}}
+	stores := []zzC05Store{{-1, jkv}}
 	for i := range rr.nodes {
-		stores = append(stores, zzC05Store{ring.ids[i], rr.kvs[i]})
+		stores = append(stores, zzC05Store{i, rr.kvs[i]})
 	}
 	if !importFails {
 		rt.Assert(err == nil, "join-accepted-on-a-stable-ring")
@@ -197,7 +211,7 @@ func ZZ_C05_Join() {
 	// (a joiner that is gone is only noticed when there is something to hand over)
 	if err != nil {
 		// nothing may have moved
-		zzC05CheckPlacement(stores, keys, func(k *zzC05Key) uint64 { return ring.ids[k.owner] })
+		zzC05CheckPlacement(stores, keys, func(k *zzC05Key, idx int) bool { return idx == k.owner })
 		rt.Assert(rr.nodes[sIdx].state.Get() == chord.Active, "successor-unlocked-after-a-refused-join")
 		rt.Reach("join-refused-nothing-moved")
 		rt.Reach("end")
@@ -206,8 +220,16 @@ func ZZ_C05_Join() {
 	rt.Assert(pre != nil && pre.ID() == pred, "joiner-is-told-its-predecessor")
 	rt.Assert(len(succs) >= 1 && succs[0] != nil && succs[0].ID() == ring.ids[sIdx], "joiner-is-told-its-successor")
 	// new membership: the joiner owns (pred, joiner], everything else is as before
-	holder := func(k *zzC05Key) uint64 {
-		return rt.IteU64(zzInArc(pred, k.hash, jid), jid, ring.ids[k.owner])
+	// (the arcs of the members are disjoint, so only keys of the old successor can be in the joiner's arc)
+	holder := func(k *zzC05Key, idx int) bool {
+		inJoinerArc := rt.And(k.owner == sIdx, zzInArc(pred, k.hash, jid))
+		switch idx {
+		case -1:
+			return inJoinerArc
+		case k.owner:
+			return !inJoinerArc
+		}
+		return false
 	}
 	zzC05CheckPlacement(stores, keys, holder)
 
@@ -280,7 +302,7 @@ func ZZ_C05_Leave() {
 
 	var stores []zzC05Store
 	for i := range rr.nodes {
-		stores = append(stores, zzC05Store{ring.ids[i], rr.kvs[i]})
+		stores = append(stores, zzC05Store{i, rr.kvs[i]})
 	}
 	if succBusy {
 		rt.Assert(err != nil, "leave-refused-while-the-successor-is-locked")
@@ -288,7 +310,7 @@ func ZZ_C05_Leave() {
 		rt.Assert(err == nil, "leave-proceeds-on-a-stable-ring")
 	}
 	if err != nil || n == 1 {
-		zzC05CheckPlacement(stores, keys, func(k *zzC05Key) uint64 { return ring.ids[k.owner] })
+		zzC05CheckPlacement(stores, keys, func(k *zzC05Key, idx int) bool { return idx == k.owner })
 		if err != nil {
 			rt.Assert(leaver.state.Get() == chord.Active, "leaver-unlocked-after-a-refused-leave")
 			rt.Reach("leave-refused-nothing-moved")
@@ -301,11 +323,11 @@ func ZZ_C05_Leave() {
 	rt.Assert(pre != nil && pre.ID() == ring.ids[n-1], "leaver-names-its-predecessor")
 	rt.Assert(succ != nil && succ.ID() == ring.ids[sIdx], "leaver-names-its-successor")
 	// new membership: the successor owns the leaver's arc as well
-	holder := func(k *zzC05Key) uint64 {
+	holder := func(k *zzC05Key, idx int) bool {
 		if k.owner == 0 {
-			return ring.ids[sIdx]
+			return idx == sIdx
 		}
-		return ring.ids[k.owner]
+		return idx == k.owner
 	}
 	zzC05CheckPlacement(stores, keys, holder)
 
